@@ -55,3 +55,4 @@ func verifRaceCheck()                                   {}
 func verifColorOutput(on bool)     {}
 func verifCaptureOutput(on bool)   {}
 func verifCapturedParts() []string { return nil }
+func verifSetGOMAXPROCS(n int) {}
